@@ -110,6 +110,9 @@ def run(rep, tier, seed, replay=None):
     binary = hsim.build(rep, "hsim_chan")
     if not binary:
         return
+    if replay and json.load(open(replay)).get("harness") == "mv_chan":
+        run_mv(rep, tier, seed, [json.load(open(replay))["program"]] * 5)
+        return
     if replay:
         progs = [json.load(open(replay))["program"]]
     else:
@@ -177,3 +180,82 @@ def run(rep, tier, seed, replay=None):
     rep.sample(progs[-1])
     for kid, (k, p, v) in seen.items():
         rep.known_finding("%s (e.g. program `%s`: %s)" % (k["description"], " | ".join(p)[:200], v[:140]))
+    if not replay:
+        run_mv(rep, tier, seed, None)
+
+
+def gen_mv(r, big):
+    cap = r.choice([1, 1, 1, 2, 3, 8])
+    P, Cn = r.choice([(1, 1), (1, 1), (2, 1), (1, 2), (2, 2), (3, 2)])
+    M = r.choice([40000, 60000] if not big else [60000, 150000]) // P
+    return ["chan %d %d %d %d %d %s" % (cap, P, Cn, M, r.choice([0, 0, 0, 200]), r.choice(["stop", "close"]))]
+
+
+def run_mv(rep, tier, seed, progs):
+    """B. several vCPUs: the buffered channel's waiter counters race with push/pop only across vCPUs"""
+    import concurrent.futures as cf
+    cb = hsim.build(rep, "mv_chan")
+    if not cb:
+        return
+    if progs is None:
+        progs = []
+        cp = os.path.join(C.VERIF, "corpus", "C09mv")
+        if os.path.isdir(cp):
+            for f in sorted(os.listdir(cp)):
+                progs.append([l.rstrip("\n") for l in open(os.path.join(cp, f)) if l.strip() and not l.startswith("#")])
+        r = C.rng(seed, "c09mv")
+        progs += [gen_mv(r, tier == "thorough") for _ in range(64 if tier == "thorough" else 12)]
+    shards = [progs[i::4] for i in range(4)]
+    try:
+        with cf.ThreadPoolExecutor(4) as ex:
+            parts = list(ex.map(lambda sh: hsim.run_programs(cb, sh, model="ringlog", timeout=3000) if sh else [], shards))
+    except RuntimeError as ex_:
+        rep.violation("unverified", dict(broken="multi-vCPU channel run failed: %s" % ex_), no_input=True)
+        return
+    known = C.known_findings("C09")
+    okc, nev, seen, reported = 0, 0, {}, False
+    for sh, results in zip(shards, parts):
+        for p, res in zip(sh, results):
+            nev += len(res.trace)
+            w = p[0].split()
+            rep.distinct(("mv", "cap%s" % min(int(w[1]), 2), "P%s" % min(int(w[2]), 2), "C%s" % min(int(w[3]), 2), w[6]))
+            viol = []
+            st = next((l for l in res.trace if l.startswith("stalled ")), None)
+            if res.result.startswith("result hung"):
+                f = dict(x.split("=") for x in st.split()[1:]) if st else {}
+                if f and int(f.get("closed", 0)):
+                    viol.append("a receiver stayed blocked in recv() on a closed, drained buffered channel (%s)" % st)
+                elif f and int(f["size"]) > 0 and int(f["size"]) >= int(f["capacity"]):
+                    viol.append("a receiver stayed blocked although an item is buffered and a sender although it could proceed afterwards (%s)" % st)
+                elif f and int(f["size"]) == 0:
+                    viol.append("a sender stayed blocked although a slot is free (%s)" % st)
+                else:
+                    viol.append("senders / receivers of a buffered channel stopped making progress for 3 s (%s)" % st)
+            if res.result.startswith("result crashed"):
+                viol.append("the channel crashed: " + res.result)
+            if res.reject:
+                i, v = res.reject
+                viol.append("Lean acceptor rejected `%s`: %s" % (res.trace[i], v[len("reject "):]))
+            unlisted = []
+            for v in viol:
+                k = [x for x in known if x["signature"] in v]
+                if k:
+                    seen.setdefault(k[0]["id"], (k[0], p, v))
+                else:
+                    unlisted.append(v)
+            if not viol:
+                okc += 1
+            if unlisted and not reported:
+                rep.violation("counterexample", dict(harness="mv_chan", program=p, expected=unlisted[0],
+                                                     note="real races on real vCPUs: replaying runs the program 5 times",
+                                                     trace=[l for l in res.trace if not l.startswith("got ")][-10:]))
+                reported = True
+    rep.count(nev)
+    rep.cov["mv_programs"] = len(progs)
+    rep.cov["mv_events"] = nev
+    rep.cov["mv_runs_accepted"] = okc
+    rep.cov["mv_rule"] = ("buffered channels of capacity 1..8 with 1..3 senders and 1..2 receivers, each a photon thread on its own vCPU (OS thread), "
+                          "infinite timeouts, 40 000..150 000 elements per program, ended by close() or by stop elements; what every receiver got must be "
+                          "accepted by the Lean acceptor (sent, at most once, per-sender order, all received at the end) and nobody may stop making progress")
+    for kid, (k, p, v) in seen.items():
+        rep.known_finding("%s (e.g. program `%s`: %s)" % (k["description"], p[0], v[:140]))
